@@ -13,7 +13,7 @@ PID = "C04"
 
 
 def wanted_replay(clause):
-    return clause == "replay.draw_kind_range"
+    return clause == "replay.draw_range"
 
 
 def wanted_trace(clause, trace, call):
@@ -126,7 +126,9 @@ def run(tier, seed):
     for rec in recs:
         probs, _ = EB.replay_batch_behaviour(rec, 2, 1)
         for (clause, detail) in probs:
-            if clause == "replay.batch.draw_kind_range":
+            if clause == "replay.batch.not_followed":
+                ctx.skip("batch behaviours the code could not follow (different random primitives)")
+            if clause == "replay.batch.draw_range":
                 ctx.violation(clause, "mode=%s rows=%d" % (rec["mode"], len(rec["data"])), detail, {"batch_behaviour": rec, "d": 2, "n": 1})
     ctx.traces += len(recs)
     ctx.evaluations += len(recs)
